@@ -23,6 +23,27 @@ HARNESSES.append(
                               "ext2fs_read_dir_block4.0:66"],
          backends=["default", "kissat"],
          bound="one directory block of 48 (thorough: 64) bytes, every byte symbolic; hash version and flags symbolic"))
+HARNESSES.append(
+    dict(name="extlist", src="extlist.c",
+         funcs=["load_extents"],
+         configs=[{"NEXT": 2}, {"NEXT": 3, "MAXLEN": 65536}, {"NEXT": 2, "WRAP": None}, {"NEXT": 3, "_tier": "thorough"}, {"NEXT": 4, "MAXLEN": 65536, "_tier": "thorough"}],
+         unwind=6, unwindset=["main.%d:10" % i for i in range(6)] + ["vf_deliver.0:6", "ext2fs_block_alloc_stats2.0:6", "load_extents.0:7"],
+         backends=["default", "kissat", "z3"],
+         bound="a tree walk of 3 (thorough: 4) nodes, each a leaf extent (lblk < 2^32, pblk < 2^48, any 32-bit length, either state), an index node "
+               "or a second visit; probe block symbolic"))
+def EA_UW(k):
+    # k entries: entry loop k+1, region list at most k value nodes + 1 table node
+    return ["main.0:130", "ext2fs_read_ext_attr3.0:130", "ref_parse.0:8", "ref_parse.1:8", "ref_parse.2:26", "ref_parse.3:8", "ref_parse.4:8",
+            "check_ext_attr.0:%d" % (k + 2), "inc_ea_inode_refs.0:%d" % (k + 2), "region_allocate.0:%d" % (k + 3), "region_free.0:%d" % (k + 3)]
+HARNESSES.append(
+    dict(name="eablock", src="eablock.c", extra_src=["e2fsck/region.c", "lib/ext2fs/blknum.c"],
+         funcs=["check_ext_attr", "region_create", "region_allocate", "region_free", "inc_ea_inode_refs", "mark_block_used"],
+         cut_statics={"e2fsck/pass1.c": ["check_large_ea_inode"]},
+         cbmc_flags=["--object-bits", "10"],
+         configs=[{"BS": 72}, {"BS": 72, "OVERLAP": None}, {"BS": 96, "_tier": "thorough", "_unwindset": EA_UW(3)}, {"BS": 96, "OVERLAP": None, "_tier": "thorough", "_unwindset": EA_UW(3)}],
+         unwind=7, unwindset=EA_UW(2),
+         backends=["default", "kissat"],
+         bound="xattr block of 72 (thorough: 96) bytes, every byte symbolic under the well-formedness predicate; up to 2 (3) entries"))
 MANIFEST = {
     "text": "Kernel-level slice (partial). Bounded-exhaustive on one fully symbolic directory block: fill_dir_block indexes exactly the live entries "
             "(minus . and .. in non-compress mode) with the right inode, size sum and parent; fill_dir_block -> copy_dir_entries preserves the multiset "
